@@ -22,6 +22,7 @@ import (
 type vSessWorld struct {
 	w        *vWorld
 	vip      *vFakeVIP
+	okta     *vFakeOkta
 	slots    map[string]string // slot -> cookie value held by that browser
 	tokens   map[string]*vU2FToken
 	secrets  map[string]string
@@ -50,6 +51,13 @@ func newSessWorld(mechs []string) *vSessWorld {
 		g.mechs[m] = true
 	}
 	g.vip = w.attachVIP()
+	if g.mechs["okta"] {
+		// a deployment whose password backend and second factor is Okta
+		w.st.Config.Okta.Domain = "example"
+		w.st.Config.Okta.Enable2FA = true
+		g.okta = w.attachOkta(map[string]string{"alice": "pw-alice", "bob": "pw-bob", "root": "pw-root"})
+		g.okta.users["alice"].code, g.okta.users["bob"].code = "111111", "222222"
+	}
 	w.rawMux = verifServiceMux(w.st)
 	w.mux = vWrapMux(w)
 	for i, u := range vSessUsers {
@@ -262,6 +270,32 @@ func (g *vSessWorld) step(name string, args map[string]interface{}) (vResp, [][]
 		if ok {
 			truth = append(truth, []string{o, "cli"})
 		}
+	case "OktaStart":
+		g.cred(&q, args)
+		q.Path = oktaPushStartPath
+		r = w.Do(q)
+	case "OktaApprove":
+		u := vStr(args, "user")
+		g.okta.mu.Lock()
+		if g.okta.users[u].push == "waiting" {
+			g.okta.users[u].push = "approved"
+		}
+		g.okta.mu.Unlock()
+	case "OktaPoll", "OktaOTP":
+		g.cred(&q, args)
+		q.Path = oktaPollCheckPath
+		if name == "OktaOTP" {
+			q.Path, q.Form = okta2FAauthPath, url.Values{"OTP": {g.okta.users[vStr(args, "owner")].code}}
+		}
+		g.okta.mu.Lock()
+		before := len(g.okta.verified)
+		g.okta.mu.Unlock()
+		r = w.Do(q)
+		g.okta.mu.Lock()
+		for _, u := range g.okta.verified[before:] { // whose factor Okta really verified during this request
+			truth = append(truth, []string{u, "okta"})
+		}
+		g.okta.mu.Unlock()
 	case "Expire":
 		past := time.Now().Add(-time.Hour)
 		k := vStr(args, "key")
@@ -341,7 +375,26 @@ func (g *vSessWorld) project() map[string]interface{} {
 		vMust(err)
 		botp[u] = len(p.BootstrapOTP.Sha512Hash) > 0
 	}
-	return map[string]interface{}{"cookie": cookies, "pushTx": push, "chal": chal, "botp": botp}
+	out := map[string]interface{}{"cookie": cookies, "pushTx": push, "chal": chal, "botp": botp}
+	if g.okta != nil {
+		ok := map[string]interface{}{}
+		g.okta.mu.Lock()
+		for _, u := range vSessUsers {
+			st := g.okta.users[u].push
+			if st == "" {
+				st = "nosess"
+				for _, tu := range g.okta.tokens {
+					if tu == u {
+						st = "none" // a pending sign-in without a push
+					}
+				}
+			}
+			ok[u] = st
+		}
+		g.okta.mu.Unlock()
+		out["oktaTx"] = ok
+	}
+	return out
 }
 
 func init() { vRunners["C05"] = runC05 }
